@@ -5,7 +5,7 @@ From GoShGen Require Import Extracted.
 From GoSh Require Import Base.Bytes Base.Outcome Store.Env Store.EnvSpec.
 From GoSh Require Import Arith.ASyntax Arith.AEval.
 From GoSh Require Import Expand.Expand Expand.Spec.
-From GoSh Require Import Pattern.Regex Pattern.PCompile Pattern.Match Pattern.PSpec.
+From GoSh Require Import Pattern.Regex Pattern.PCompile Pattern.Match Pattern.PSpec Pattern.Glob.
 Extraction Language OCaml.
 Extraction "model.ml"
   Bytes.decode_rune Bytes.encode_rune Bytes.itoa
@@ -13,6 +13,7 @@ Extraction "model.ml"
   Extracted.IFS
   Env.run Env.option_string Env.get EnvSpec.arun EnvSpec.absS
   PCompile.compile_model PCompile.regex_text PCompile.syms_of Match.match_model Match.raw Match.full_match
+  Glob.glob_model Glob.glob_spec
   PSpec.spec_prefix PSpec.spec_suffix PSpec.pmb_any
   ASyntax.alex ASyntax.aparse ASyntax.has_bad ASyntax.is_letter ASyntax.is_udigit ASyntax.uni_universe
   Env.is_sp_param Env.is_pos_param Bytes.rune_count
